@@ -497,5 +497,51 @@ def r11_10(ctx):
     return r
 
 
+def r11_11(ctx):
+    """split + reorder of the flight that follows a HelloVerifyRequest. After the HVR the client re-synchronises its
+    receive counter to the first message it sees (servers restart at different numbers). If that message is not the
+    ServerHello - the Certificate overtook it - the counter jumps past the ServerHello: every retransmission of it then
+    looks like a duplicate, the transcript never contains it and the handshake fails although the server keeps
+    retransmitting (reproduced against the reference DTLS server with its flight re-packed into two datagrams that swap).
+    So: while the client is in post-HVR mode only a ServerHello may end that mode or re-synchronise the counter; every
+    such store is cut by post_hvr == false, is_client == false or msg_type == ServerHello."""
+    r = RuleResult("R11.11", "K1", "after a HelloVerifyRequest only the ServerHello re-synchronises the handshake sequence")
+    b = ctx.body(D + "process_handshake_payload::{closure#0}")
+    r.scope.append(b.name)
+    sites = []
+    for bi, si, st in core.field_writes(b, lambda f: f in ("recv_message_seq", "post_hvr")):
+        if si is None:
+            continue
+        v = b.term_rvalue(st["rv"])
+        f = [e for e in st["p"].get("p", ()) if isinstance(e, (list, tuple))]
+        name = mir.field_path(b.term_place(st["p"])) or ""
+        if name.endswith("recv_message_seq") and v[0] == "field" and v[2] == "message_seq":
+            sites.append((bi, "resync"))
+        elif name.endswith("post_hvr") and mir.int_value(v) == 0:
+            sites.append((bi, "leave-post-hvr"))
+    r.need("post-HVR stores (resync / leave)", len(sites), 2)
+
+    def guard(term, meaning, *_):
+        if term[0] == "call" and "PartialEq" in term[1] and mir.has_field(term, "msg_type") and \
+                mir.has(term, lambda x: x[0] == "agg" and x[1].endswith("HandshakeType") and x[2] == "ServerHello"):
+            return meaning is term[1].endswith("::eq")
+        if term[0] == "field" and term[2] == "post_hvr" and meaning is False:
+            return True
+        if mir.field_path(term) and mir.field_path(term).split(".")[-1] == "is_client" and meaning is False:
+            return True
+        if term[0] == "arg" and term[1] == "is_client" and meaning is False:
+            return True
+        return False
+    g = core.guard_edges(b, guard)
+    for bi, what in sites:
+        if g and core.k1(b, [bi], g, fresh_per_iteration=True)[bi] is None:
+            r.ok({"site": b.where(bi), "what": what, "cut_by": "not in post-HVR mode, or the message is the ServerHello"})
+        else:
+            r.violate(b.name, "post-hvr:%s" % what, b.where(bi),
+                      "in post-HVR mode a message that is not the ServerHello can %s: a later message of the server's flight that overtakes the "
+                      "ServerHello makes the client skip it for good" % ("re-synchronise recv_message_seq" if what == "resync" else "end post-HVR mode"))
+    return r
+
+
 def run(ctx):
-    return [r11_1(ctx), r11_2(ctx), r11_3(ctx), r11_4(ctx), r11_5(ctx), r11_6(ctx), r11_7(ctx), r11_8(ctx), r11_9(ctx), r11_10(ctx)]
+    return [r11_1(ctx), r11_2(ctx), r11_3(ctx), r11_4(ctx), r11_5(ctx), r11_6(ctx), r11_7(ctx), r11_8(ctx), r11_9(ctx), r11_10(ctx), r11_11(ctx)]
